@@ -142,7 +142,9 @@ func (c *TextLayout) ToBytes(e *Event) []byte {
 	buf.WriteString(separator)
 
 	if e.CtxString != "" {
-		buf.WriteString(e.CtxString)
+		// The context string comes from the request (trace id, ...): escape it
+		// like every other value so that it cannot break or forge a line.
+		WriteLogString(buf, e.CtxString)
 		buf.WriteString(separator)
 	}
 
